@@ -327,6 +327,10 @@ func calleeShortName(c *ssa.CallCommon) string {
 	case *ssa.Builtin:
 		return f.Name()
 	}
+	// a call through a function value: the name of its type when it has one (AssertErrorFunc), else "dyn"
+	if n, ok := c.Value.Type().(*types.Named); ok {
+		return n.Obj().Name()
+	}
 	return "dyn"
 }
 
